@@ -90,8 +90,9 @@ class C11:
             init.append({"p": LAYERS + [b(b"y.toml")], "k": "f", "m": 0o644, "c": b(b"[types]\nlaunch = true\n")})
             if rng.random() < 0.5:
                 init.append({"p": LAYERS + [b(b"y.sbom.cdx.json")], "k": "f", "m": 0o644, "c": b(b"{}")})
-            # target layer x
-            x = LAYERS + [b(b"x")]
+            # target layer: "x", or the dotted name "y.z" next to its dot-free sibling "y"
+            tn = rng.choice([b"x", b"x", b"y.z"])
+            x = LAYERS + [b(tn)]
             r = rng.random()
             if r < 0.72:
                 init.append({"p": x, "k": "d", "m": rng.choice([0o755, 0o755, 0o555, 0o000, 0o311])})
@@ -102,14 +103,14 @@ class C11:
             elif r < 0.96:
                 init.append({"p": x, "k": "f", "m": 0o644, "c": [5]})
             if rng.random() < 0.7:
-                init.append({"p": LAYERS + [b(b"x.toml")], "k": "f", "m": rng.choice([0o644, 0o444]), "c": b(b"[types]\n")})
+                init.append({"p": LAYERS + [b(tn + b".toml")], "k": "f", "m": rng.choice([0o644, 0o444]), "c": b(b"[types]\n")})
             for sx in [b"cdx.json", b"spdx.json", b"syft.json"]:
                 if rng.random() < 0.3:
-                    init.append({"p": LAYERS + [b(b"x.sbom." + sx)], "k": "f", "m": 0o644, "c": b(b"{}")})
+                    init.append({"p": LAYERS + [b(tn + b".sbom." + sx)], "k": "f", "m": 0o644, "c": b(b"{}")})
             if rng.random() < 0.1:
                 # the layers directory itself not writable
                 init[1]["m"] = 0o555
-            cases.append({"init": init, "layers": LAYERS, "name": b(b"x"), "op": rng.choice(["delete_layer", "delete_layer", "rdr"])})
+            cases.append({"init": init, "layers": LAYERS, "name": b(tn), "op": rng.choice(["delete_layer", "delete_layer", "rdr"])})
         return cases
 
     def run_impl(self, cases, workdir):
